@@ -210,6 +210,7 @@ type Monitor struct {
 	LinkExch    map[[2]string]int
 	rvRoundSeen map[string]bool
 	RVRounds    int
+	healSeq     uint64
 	rvSendCount map[string]int
 
 	Puppet bool
@@ -472,6 +473,28 @@ func (m *Monitor) feed(ev *Event) {
 		m.violate(ev, []string{"C14", "C18"}, sig, node, "node %s aborted the process: %s", node, ev.Str)
 	case KPhase:
 		m.Phase = ev.Str
+		if ev.Str == "heal" {
+			m.healSeq = ev.Seq
+		}
+		if ev.Str == "final-ok" && m.healSeq != 0 {
+			// C18 (no call blocks forever), restated for request handlers: the cluster has converged after the heal and
+			// acknowledged a fresh write; a handler that was entered before the heal on an incarnation that is still
+			// running has had every chance to finish
+			ids := make([]uint64, 0)
+			for id, mi := range m.msgs {
+				if mi.delivered && mi.replySeq == 0 && mi.delivSeq < m.healSeq {
+					if n := m.Nodes[mi.m.To]; n != nil && n.Live && n.Inc == mi.m.ToInc {
+						ids = append(ids, id)
+					}
+				}
+			}
+			sort.Slice(ids, func(i, j int) bool { return ids[i] < ids[j] })
+			m.Counts["c18.handler_checks"]++
+			for _, id := range ids {
+				mi := m.msgs[id]
+				m.violate(ev, []string{"C18"}, "handler-never-returned", mi.m.To, "node %s: the %s handler entered at seq %d (request of %s, term %d) has not returned although the faults stopped at seq %d, the cluster converged and acknowledged a fresh write", mi.m.To, mi.m.Kind, mi.delivSeq, mi.m.From, mi.m.Term, m.healSeq)
+			}
+		}
 	case KPuppet:
 		m.Puppet = true
 	case KNote:
